@@ -665,3 +665,8 @@ func checkTablesFrozen(e *Env, p *load.Program, pkgPath, rule string) {
 		r.OK(rule, "tables-frozen/"+sp.Pkg.Name(), "", "no function of the package (declared init functions included) writes to a package-level table")
 	}
 }
+
+// isProblemElem: the element type of a list of recorded problems - descriptions (string) or error values.
+func isProblemElem(t types.Type) bool {
+	return types.Identical(t, types.Typ[types.String]) || flow.IsErrorType(t)
+}
